@@ -1,6 +1,7 @@
 import PoxModel.Proofs.ActionsSpec
 import PoxModel.Proofs.ActionsPorts
 import PoxModel.Proofs.ActionsPortMod
+import PoxModel.Proofs.ActionsPure
 /-!
 # C12 — the datapath applies actions and port rules as the specification prescribes
 
@@ -10,13 +11,13 @@ chain type of C14; it follows the code **after** the proposed repairs D7 (enqueu
 does not run the receive half of `rx_packet` again) and C12-1 (VLAN action arguments reduced to the field width).
 Specification: `Spec/ActionsSpec.lean` (`ser`, `rewrite`, `expand`, `emitted`, `accepts`, `tally`).
 
-* `port_guards`, `flood_excludes_ingress`, `counters_exact`, `port_mod_spec` hold for **every** frame the model accepts
+* `port_guards`, `flood_excludes_ingress`, `counters_exact`, `outputs_only`, `port_mod_spec` hold for **every** frame the model accepts
   (no well-formedness), every action list, every port configuration, every operation history, every nesting depth.
 * `actions_spec`, `rx_spec`, `checksums_ok` hold for every **well-formed** frame (`Frame.WF`: every header field in its wire
   range, every IP datagram below 64 KiB — C14's `Good` without the demultiplexing conditions), every action list with
   arguments as the wire format delivers them, every port configuration, every flow table whose entries do not output to
   TABLE (OpenFlow 1.0 allows TABLE only in packet-out).
-* `enqueue_d7_defect`, `table_recount_d8_defect`, `vlan_pcp_c121_defect`: the unrepaired lines violate the statements on
+* `enqueue_d7_defect`, `table_recount_d8_defect`, `vlan_pcp_c121_defect`, `strip_vlan_c122_defect`: the unrepaired lines violate the statements on
   concrete inputs (replayed against the real code by harness/c12.py).
 -/
 namespace Pox.C12
@@ -269,6 +270,30 @@ example : (ser none exFrame.pay).length = 31 ∧
   · rw [e]; simp [l1, udpBytes_length]
   · rw [hu]; simp [udpBytes_length]
 
+/-- **An action list that only outputs leaves the frame bytes unchanged — for every frame**, not only well-formed ones:
+whatever `ethernet` object `f` the loop is given (any chain, any field values, also one whose parse gave up half-way), any
+code variant, nesting depth, port and flow table: if the actions are outputs / enqueues to anything but TABLE, the packet
+comes out of the loop as it went in, every emitted frame carries exactly `f.pack()` and every packet-in a prefix of it.
+Second part (with C14's `roundtrip`): if `f` was parsed from the wire form `wire` of a well-formed chain, `f.pack()` is
+`wire` — every copy that leaves the switch is byte for byte the frame that came in. -/
+theorem outputs_only :
+    (∀ (var : Variant) (fuel : Nat) (sw : Sw) (acts : List Action) (f : Frame) (inPort : Nat) (sw' : Sw) (f' : Frame)
+        (outs : List Out), (∀ a ∈ acts, pureOutput a) → run var fuel sw acts f inPort = .ok (sw', f', outs) →
+        f' = f ∧ ∀ o ∈ outs, ∃ b, packFrame f = .ok b ∧
+          ((∃ p, o = Out.frame p b) ∨ (∃ r ml, o = packetInOf inPort r b ml))) ∧
+    (∀ (p : Pkt) (wire : Bytes) (f : Frame), kindOf p = some .eth → Good none p → pack none p = .ok wire →
+        f.pkt = parseTop .eth wire → packFrame f = .ok wire) :=
+  ⟨fun var fuel sw acts f inPort sw' f' outs hp h => run_outputs_only var fuel sw acts f inPort sw' f' outs hp h,
+   fun p wire f hk hg hw hf => packFrame_wire p hk hg wire hw f hf⟩
+
+example : (∀ a ∈ [Action.output P_FLOOD 0, .enqueue 4 1, .output P_CONTROLLER 10, .output P_IN_PORT 0], pureOutput a) ∧
+    kindOf exSmall.pkt = some .eth ∧ Good none exSmall.pkt ∧ pack none exSmall.pkt = .ok (serF exSmall) ∧
+    exSmall.pkt = parseTop .eth (serF exSmall) := by
+  refine ⟨?_, rfl, ⟨by constructor <;> decide, by simp [EthCompat, exSmall, exEth], trivial⟩, by decide +kernel, by rfl⟩
+  intro a ha
+  simp only [List.mem_cons, List.not_mem_nil, or_false] at ha
+  rcases ha with rfl | rfl | rfl | rfl <;> simp [pureOutput, P_FLOOD, P_TABLE, P_CONTROLLER, P_IN_PORT]
+
 /-! ## port-mod -/
 
 /-- **port-mod replaces exactly the masked, supported configuration bits.**  For a port that exists and whose hardware
@@ -321,5 +346,14 @@ theorem vlan_pcp_c121_defect :
     packetOut { c121 := true } exSw [.setVlanPcp 9, .output 4 0] exSmall 1 = .error (.pack .struct) ∧
     (packetOut {} exSw [.setVlanPcp 9, .output 4 0] exSmall 1).map (·.2)
       = .ok [.frame 4 (serF (rewrite1 (.setVlanPcp 9) exSmall))] := by decide +kernel
+
+/-- C12-2: `strip_vlan` on a frame that ends inside the 802.1Q tag (the `vlan` object did not parse): the unrepaired line
+does `packet.payload = None`, which raises `TypeError` out of the data path; the repaired one leaves the frame alone -/
+theorem strip_vlan_c122_defect :
+    packetOut { c122 := true } exSw [.stripVlan, .output 4 0] ⟨{ exEth with type := 0x8100 }, .unparsed "vlan" [0, 5]⟩ 1
+      = .error .typeError ∧
+    (packetOut {} exSw [.stripVlan, .output 4 0] ⟨{ exEth with type := 0x8100 }, .unparsed "vlan" [0, 5]⟩ 1).map (·.2)
+      = .ok [.frame 4 [0x66, 0x77, 0x88, 0x99, 0xaa, 0xbb, 0, 0x11, 0x22, 0x33, 0x44, 0x55, 0x81, 0x00, 0, 5]] := by
+  decide +kernel
 
 end Pox.C12
